@@ -26,9 +26,10 @@ LEVEL = "exploration"
 RULE = (
     "enumerated layouts: per container kind a greedy pairwise covering array over {ns, nf, dim order, index kind "
     "per dim slot, extra coords, naming scheme, preprocessing flags, NaN feature, dtype, mixed-dims shape, order of "
-    "the sample_dims argument} + per (ns,nf) a pairwise covering of the index kinds of all dim slots + seeded random "
-    "layouts (thorough: pairwise arrays per container x ns x nf x order cell, 3-wise arrays over index kinds, 4000 "
-    "random); a case is non-trivial when the layout differs from the repository's test layouts (one ascending-int "
+    "the sample_dims argument} + for (ns,nf) in {(1,1),(2,2),(3,3),(1,3),(3,1)} a pairwise covering of the index kinds of "
+    "all dim slots x container x order + 24 namings the library declares unusable + 200 seeded random "
+    "layouts (thorough: pairwise arrays per container x ns x nf x order cell, 3-wise arrays over index kinds x container, "
+    "4000 random); a case is non-trivial when the layout differs from the repository's test layouts (one ascending-int "
     "DataArray / same-dims Dataset) in at least one factor; distinct = distinct canonical case record"
 )
 ASSUMPTIONS = [
@@ -246,9 +247,12 @@ def cases(tier, seed):
             for c in covering(lv, 2, 10 + ci, fixed={"container": cont}):
                 add("pair_container", c, k)
                 k += 1
-        # (b) per (ns, nf): pairwise over the index kinds of the dim slots x container
+        # (b) per (ns, nf) on the diagonal and the corners: pairwise over the index kinds of all dim slots x
+        #     container x order, everything else at its baseline (the "clean" layouts)
         for ns in (1, 2, 3):
             for nf in (1, 2, 3):
+                if (ns, nf) not in ((1, 1), (2, 2), (3, 3), (1, 3), (3, 1)):
+                    continue
                 lv = {n: v for n, v in _relevant(ns, nf).items() if n.startswith("k_") or n in ("container", "order")}
                 for c in covering(lv, 2, 100 + 10 * ns + nf, fixed={"ns": ns, "nf": nf}):
                     add("pair_kinds", c, k)
@@ -278,6 +282,11 @@ def cases(tier, seed):
             for c in covering(lv, 3, 5000 + 10 * ns + nf, fixed={"ns": ns, "nf": nf}):
                 add("triple_kinds", c, k)
                 k += 1
+        for j in range(60):
+            rng = gen.rng_for(78, j)
+            c = _random_case(rng, allow_invalid=True, names=("eq_sample", "eq_feature", "eq_crossed")[j % 3], ns=2 + j % 2 if j % 3 != 1 else None)
+            add("declared_invalid", c, k)
+            k += 1
         nrand = 4000
     for j in range(nrand):
         rng = gen.rng_for(seed, 2, j)
